@@ -151,6 +151,18 @@ example (o : VerifyOpts) : Query (Except IErr (List Task)) := fun s => newVerifi
 /-- no function reachable from the read-only API stores to state shared by users of one handle -/
 theorem C18_no_shared_writes : Gen.sharedWrites = [] := by decide
 
+/-- on every read-only path the backing store (the `io.ReaderAt`/`ReadWriter` field of a
+    `Descriptor`/`FileImage`) is only ever the receiver of `ReadAt`, the source of
+    `io.NewSectionReader`, or copied into a `Descriptor`: no type assertion to a wider interface,
+    no `Seek`/`Read`/`Write`, no hand-off to other code — so no reader moves the store's shared
+    position (regenerated from the source on every run) -/
+theorem C18_store_only_positioned_reads : Gen.storeUses = [] := by decide
+
+/-- … and that rule is exercised: the two places the store is legitimately used are seen -/
+theorem C18_store_uses_seen :
+    Gen.storePositionedReads.contains ("sif.Descriptor.GetReader", "d.r") = true ∧
+    Gen.storePositionedReads.contains ("sif.FileImage.descriptorFromRaw", "f.rw") = true := by decide
+
 /-- the analysis is not vacuous: it starts from the read-only API and reaches the helpers every
     query goes through, including the integrity stream and verification paths -/
 theorem C18_entries_cover :
